@@ -66,3 +66,32 @@ pub fn c13_watch_change_between_nexts() {
     forget(w);
     forget(config);
 }
+
+/// Two changes made between two `next()` calls are seen by the following call (one wake-up is enough: the
+/// worker re-reads the whole configuration), and once changes have stopped the call after that stays pending:
+/// no change is lost, none is reported twice.
+#[kani::proof]
+#[kani::unwind(4)]
+#[kani::stub(std::boxed::Box::write, crate::util::box_write_stub)]
+pub fn c13_watch_two_changes_then_quiet() {
+    let config = Config::default();
+    let mut w = config_watch(&config);
+    {
+        let mut f = ManuallyDrop::new(w.next());
+        assert!(poll_once(unsafe { Pin::new_unchecked(&mut *f) }).is_ready(), "C13: the first next() must resolve at once (initial configuration)");
+    }
+    let secs: u64 = kani::any();
+    config.throttle(Duration::from_secs(secs));
+    config.keyboard_events(kani::any());
+    {
+        let mut f = ManuallyDrop::new(w.next());
+        assert!(poll_once(unsafe { Pin::new_unchecked(&mut *f) }).is_ready(), "C13: a configuration change made between two next() calls is lost (the worker is never told)");
+    }
+    {
+        let mut f = ManuallyDrop::new(w.next());
+        assert!(poll_once(unsafe { Pin::new_unchecked(&mut *f) }).is_pending(), "C13: next() resolved again although nothing changed since the last one");
+        kani::cover!(true, "quiet after the changes were seen");
+    }
+    forget(w);
+    forget(config);
+}
